@@ -35,7 +35,7 @@ def rowOk (W : Nat → Option Nat) (r : Row) : Bool :=
 def posOk (sz : Size) (p : Pos) : Bool := p.row < sz.rows && p.col ≤ sz.cols
 
 def gridOk (W : Nat → Option Nat) (g : Grid) (mayBeUnallocated : Bool) : Bool :=
-  g.size.rows ≥ 1 && g.size.cols ≥ 1 &&
+  g.size.rows ≥ 1 && g.size.cols ≥ 1 && g.size.rows ≤ 65535 && g.size.cols ≤ 65535 &&
   ((mayBeUnallocated && g.rows.isEmpty) || g.rows.length == g.size.rows) &&
   g.rows.all (fun r => r.cells.length == g.size.cols && rowOk W r) &&
   posOk g.size g.pos && posOk g.size g.savedPos &&
